@@ -808,9 +808,7 @@ func registerIntrinsics(e *Engine) {
 		ch := ex.newChan(1, timeT)
 		p := mkTimerObj(ex, rt, ch)
 		vt := ex.addTimer(a[0].(*Term), func() {
-			if len(ch.buf) == 0 {
-				ch.buf = append(ch.buf, ex.timeValue(timeT, ex.now()))
-			}
+			ex.chanPost(ch, ex.timeValue(timeT, ex.now()))
 		}, nil)
 		ex.syncOf(p).val = vt
 		return p
@@ -819,7 +817,7 @@ func registerIntrinsics(e *Engine) {
 		timeT := fn.Signature.Results().At(0).Type().Underlying().(*types.Chan).Elem()
 		ch := ex.newChan(1, timeT)
 		ex.addTimer(a[0].(*Term), func() {
-			ch.buf = append(ch.buf, ex.timeValue(timeT, ex.now()))
+			ex.chanPost(ch, ex.timeValue(timeT, ex.now()))
 		}, nil)
 		return ch
 	}
@@ -831,9 +829,7 @@ func registerIntrinsics(e *Engine) {
 		ch := ex.newChan(1, timeT)
 		p := mkTimerObj(ex, rt, ch)
 		vt := ex.addTimer(d, func() {
-			if len(ch.buf) == 0 {
-				ch.buf = append(ch.buf, ex.timeValue(timeT, ex.now()))
-			}
+			ex.chanPost(ch, ex.timeValue(timeT, ex.now()))
 		}, d)
 		ex.syncOf(p).val = vt
 		return p
